@@ -24,6 +24,9 @@ type PropConfig struct {
 	Bounded     []BoundedCheck `json:"bounded"`
 	Harness     []Harness `json:"harness"`
 	TopLevel    []string `json:"top_level"` // functions whose disappearance makes the property undecidable
+	// the property says "never fails / never crashes" for these functions: a NEW panic site in one of them
+	// that does not discharge is reported even without a counter-model
+	StrictSafety bool `json:"strict_safety"`
 }
 
 type BoundedCheck struct {
@@ -270,7 +273,7 @@ func (g *Gen) checkFunction(name string, p *PropConfig, bl *Baseline, tier strin
 	results := map[*Oblig]*OblResult{}
 	var rmu sync.Mutex
 	mk := func(o *Oblig) *OblResult {
-		r := &OblResult{Func: name, ID: o.ID, Kind: o.Kind, Safety: o.Safety, Cover: o.Cover, Src: o.Src, Desc: o.Desc, Points: o.N, Tags: o.Tags}
+		r := &OblResult{Func: name, ID: o.ID, Kind: o.Kind, Safety: o.Safety, Cover: o.Cover, Src: o.Src, Desc: o.Desc, Points: o.N, Tags: o.Tags, Peer: o.Peer}
 		rmu.Lock()
 		results[o] = r
 		rmu.Unlock()
@@ -368,7 +371,7 @@ func (g *Gen) checkFunction(name string, p *PropConfig, bl *Baseline, tier strin
 			f := writeQuery(dir, o.ID, emit(map[*Oblig]bool{o: true}))
 			t := 3 * time.Second
 			r := run("z3-new", f, t)
-			if r.Answer != "unsat" && r.Answer != "sat" && lostSome && !bl.NotClaimed[o.ID] && tier != "thorough" {
+			if r.Answer != "unsat" && r.Answer != "sat" && (lostSome || o.Peer || (p.StrictSafety && o.Safety)) && !bl.NotClaimed[o.ID] && tier != "thorough" {
 				r = race(f, timeout/2, solverOrder)
 			}
 			if r.Answer != "unsat" && r.Answer != "sat" && tier == "thorough" {
